@@ -464,7 +464,7 @@ func init() {
 			}
 			return fw.Plan{
 				Level: "exploration",
-				Rule:  "programs that never terminate by construction: a core (spinning: every loop form, for-in nested in a loop, unbounded recursion through 0/1/3/6-parameter, variadic and mutually recursive functions, tick-less loops; blocked: receive expression/statement with and without ok, send on unbuffered and full channels, range over an open channel, forwarding `out <- <- ch`, and the channel-to-channel form `dst <- src` blocked in its sending half (value ready in src; dst unbuffered or full; script-made and host-made channels), in its receiving half, and as a pipeline stage in a loop / function / goroutine; practically endless recursion (2^64 calls, depth 64) through functions whose body is exactly one `return <expr>`: 1 and 6 parameters, variadic, lambda variable, map member, zero-parameter closures, mutual recursion 0/1/6, through a host callback, with a probe at the leaves or probe-less) under 0-3 wrappers (script function of arity 0/1/4/6/variadic/spread call, anonymous/member/module call, module body, go + blocked parent, try/catch/finally bodies, either side of ??, ternary arm, call argument, deferred callee (after return / after error / top level), switch, if/else, for-in, callbacks handed to Go func types with and without an error result; host functions that invoke the callback several times (retry, each, sort-like, value+error, stored struct field) or only after Go-side work, where the host cancels the context itself between two invocations or waits there until the asynchronous cancellation has landed, so that the never-terminating invocation STARTS under a cancelled context; the target expressions of a receive statement; round 5 (c02_r5.go): callbacks of Go types that take a context.Context (first/last/only parameter, with value, error and multiple results, script function variadic, stored in a struct field and called by host or script, appended to a host slice, returned by another callback, retried with a host cancel between / a wait for the cancel) which the host invokes with context.Background(), a context of its own not derived from the run's, or nil; script functions converted by every store/append into a container with a Go func element type (+ and += of one value on host-owned, make()-made, literal and member slices, index store, index append, typed map index/member store, typed map literal, host-owned map, store through a pointer, send on a script-made typed channel, list and nested list given to []func() / [][]func() parameters) and then invoked by the script or by a host function; script functions returned in result positions of Go callback types (func with error / bool / in second / middle-of-three position, with parameter and result, the result list as one list value, slices and maps of funcs as single or one of several results, func() error as result, factory of factory, host cancels between two invocations of the returned function); a callback the host runs on a goroutine of its own while the script is blocked; round 6 (c02_r6.go): try statements whose catch block is left by return / throw / rethrow / a runtime error / break / continue and whose finally block holds the core, at top level, nested in another try, in loops, in script functions of 0/1/6 parameters whose last statement it is, and in a callback - each calls entered() in front of the core, and a run that ends without that call never reached the core (whether such a finally block runs is not this property's business) and is trivial), last or followed by further statements. phase contended = a script consuming a buffered channel (range / receive statement / receive with ok, at top level or in a function) while host goroutines take values from the same channel and a host producer feeds it; when the feed has stopped and the buffer is empty the context is cancelled (150 trials per case; only the last values fed matter, so feeds are short; channel capacity, number of competing consumers and feed length from the PRNG). Cancellation instant: synchronous (the k-th probe cancels, k swept) or asynchronous (a harness goroutine cancels after 0-3 ms at GOMAXPROCS 1/2/16). phase deep = the cancellation lands underneath 20000-100000 pending script calls (depth from the PRNG, capped at 60000 for the call paths that need the most Go stack): a recursion that counts down through 1/3/6-parameter, variadic, lambda-variable, map-member, closure, mutually recursive functions, through a host callback, in operand / statement / host-call-argument position, with a defer or a try statement at every level, or along a linked structure, and then spins (with and without probe, in a callee) or blocks (receive, send) at its bottom, which it announces by entered(); and the unbounded recursions of the main table cancelled synchronously by their D-th probe; under 0-1 wrappers; every call path once per round of cases. phase enum = every core x every single wrapper x both positions (complete), except that each round-5 wrapper is run with every core in ONE of the two positions (alternating with core and wrapper; the random phase draws the position freely); phase random = PRNG wrapper chains of length 0-3. Non-trivial = the program was running (>= 1 probe event or a blocked core) when the cancel landed; distinct = (program, mode, k)." + c02R8Rule + c02R9Rule,
+				Rule:  "programs that never terminate by construction: a core (spinning: every loop form, for-in nested in a loop, unbounded recursion through 0/1/3/6-parameter, variadic and mutually recursive functions, tick-less loops; blocked: receive expression/statement with and without ok, send on unbuffered and full channels, range over an open channel, forwarding `out <- <- ch`, and the channel-to-channel form `dst <- src` blocked in its sending half (value ready in src; dst unbuffered or full; script-made and host-made channels), in its receiving half, and as a pipeline stage in a loop / function / goroutine; practically endless recursion (2^64 calls, depth 64) through functions whose body is exactly one `return <expr>`: 1 and 6 parameters, variadic, lambda variable, map member, zero-parameter closures, mutual recursion 0/1/6, through a host callback, with a probe at the leaves or probe-less) under 0-3 wrappers (script function of arity 0/1/4/6/variadic/spread call, anonymous/member/module call, module body, go + blocked parent, try/catch/finally bodies, either side of ??, ternary arm, call argument, deferred callee (after return / after error / top level), switch, if/else, for-in, callbacks handed to Go func types with and without an error result; host functions that invoke the callback several times (retry, each, sort-like, value+error, stored struct field) or only after Go-side work, where the host cancels the context itself between two invocations or waits there until the asynchronous cancellation has landed, so that the never-terminating invocation STARTS under a cancelled context; the target expressions of a receive statement; round 5 (c02_r5.go): callbacks of Go types that take a context.Context (first/last/only parameter, with value, error and multiple results, script function variadic, stored in a struct field and called by host or script, appended to a host slice, returned by another callback, retried with a host cancel between / a wait for the cancel) which the host invokes with context.Background(), a context of its own not derived from the run's, or nil; script functions converted by every store/append into a container with a Go func element type (+ and += of one value on host-owned, make()-made, literal and member slices, index store, index append, typed map index/member store, typed map literal, host-owned map, store through a pointer, send on a script-made typed channel, list and nested list given to []func() / [][]func() parameters) and then invoked by the script or by a host function; script functions returned in result positions of Go callback types (func with error / bool / in second / middle-of-three position, with parameter and result, the result list as one list value, slices and maps of funcs as single or one of several results, func() error as result, factory of factory, host cancels between two invocations of the returned function); a callback the host runs on a goroutine of its own while the script is blocked; round 6 (c02_r6.go): try statements whose catch block is left by return / throw / rethrow / a runtime error / break / continue and whose finally block holds the core, at top level, nested in another try, in loops, in script functions of 0/1/6 parameters whose last statement it is, and in a callback - each calls entered() in front of the core, and a run that ends without that call never reached the core (whether such a finally block runs is not this property's business) and is trivial), last or followed by further statements. phase contended = a script consuming a buffered channel (range / receive statement / receive with ok, at top level or in a function) while host goroutines take values from the same channel and a host producer feeds it; when the feed has stopped and the buffer is empty the context is cancelled (150 trials per case; only the last values fed matter, so feeds are short; channel capacity, number of competing consumers and feed length from the PRNG). Cancellation instant: synchronous (the k-th probe cancels, k swept) or asynchronous (a harness goroutine cancels after 0-3 ms at GOMAXPROCS 1/2/16). phase deep = the cancellation lands underneath 20000-100000 pending script calls (depth from the PRNG, capped at 60000 for the call paths that need the most Go stack): a recursion that counts down through 1/3/6-parameter, variadic, lambda-variable, map-member, closure, mutually recursive functions, through a host callback, in operand / statement / host-call-argument position, with a defer or a try statement at every level, or along a linked structure, and then spins (with and without probe, in a callee) or blocks (receive, send) at its bottom, which it announces by entered(); and the unbounded recursions of the main table cancelled synchronously by their D-th probe; under 0-1 wrappers; every call path once per round of cases. phase enum = every core x every single wrapper x both positions (complete), except that each round-5 wrapper is run with every core in ONE of the two positions (alternating with core and wrapper; the random phase draws the position freely); phase random = PRNG wrapper chains of length 0-3. Non-trivial = the program was running (>= 1 probe event or a blocked core) when the cancel landed; distinct = (program, mode, k)." + c02R8Rule + c02R9Rule + c02R10Rule,
 				Assumptions: []string{"the error must carry the text \"execution interrupted\" (vm.ErrInterrupt or a *vm.Error wrapping it)",
 					"after cancel() returned, at most 2*(ticks per cycle)+goroutines+2 further probe events are tolerated (the expression in progress may finish)",
 					"a call that has not returned is judged from two goroutine-state samples and the process CPU time consumed since the cancel; a wall-clock expiry alone is inconclusive",
@@ -474,18 +474,18 @@ func init() {
 					"a program that may end by itself before it reaches its core (round-6 finally wrappers) or that needs time to get there (phase deep) calls the host function entered() at that point; an asynchronous cancel is scheduled after that call (or after the program has ended, or after a grace period - which of the three is irrelevant for the verdict); an outcome other than \"execution interrupted\" is a violation only if entered() was called, because only then the program could not have ended by itself",
 					"phase deep: a call that has not returned 4 s after the cancel is waited for until the process has consumed 3 s of CPU since the cancel (the unchanged tree needs 0.02-0.3 s to unwind 100000 pending calls; the CPU budget instead of more wall clock keeps the verdict independent of how busy the machine is) and is then classified like any other call that does not return: goroutine states + CPU time, signature not-stopped:<kind>:...:deep-recursion",
 					"excluded for now (constants c02PendingFix_*, reported for repair): an interruption while the ok target of `v, target = <- ch` is evaluated; a script function stored in a Go func-typed slot by an earlier run and called by a later one",
-					c02R8Assumptions[0], c02R8Assumptions[1], c02R8Assumptions[2], c02R9Assumptions[0], c02R9Assumptions[1]},
+					c02R8Assumptions[0], c02R8Assumptions[1], c02R8Assumptions[2], c02R9Assumptions[0], c02R9Assumptions[1], c02R10Assumptions[0]},
 				Phases: append([]fw.Phase{
 					{Name: "enum", Cases: len(fixed) + len(enum), Chunk: 40, Exhaust: true, TimeoutS: 900, Jobs: 8},
 					{Name: "random", Cases: nRand, Chunk: 40, TimeoutS: 900, Jobs: 8},
 					{Name: "contended", Cases: nCont, Chunk: 5, TimeoutS: 900, Jobs: 4},
 					{Name: "deep", Cases: nDeep, Chunk: 2, TimeoutS: 900, Jobs: 4, MemMB: 3072},
-				}, append(c02R8Phases(tier), c02R9Phases(tier)...)...),
+				}, append(append(c02R8Phases(tier), c02R9Phases(tier)...), c02R10Phases(tier)...)...),
 			}
 		},
 		Run: func(c *wk.Case) {
 			var cc c02Case
-			if c02R8Run(c) || c02R9Run(c) {
+			if c02R8Run(c) || c02R9Run(c) || c02R10Run(c) {
 				return
 			}
 			if c.Phase == "contended" {
